@@ -114,7 +114,10 @@ def run(tier, seed, workers=None):
         nontrivial_stat='c03_dest_moved',
         rule='BFS over histories of two pull requests in queue / skip-queue '
              'mode with CI reports (per queue branch and all at once, stale '
-             'reports on superseded commits) in any order; '
+             'reports on superseded commits) in any order; also stacked pull '
+             'requests, developer commits on integration branches and a '
+             'state reached after an earlier pull request went through the '
+             'queue (left-over queue branches); '
              'distinct_nontrivial = destination-branch movements whose new '
              'tip was looked up in the build-status table',
         assumptions=['mock git host; build key pre-merge',
